@@ -49,3 +49,73 @@ def bits(a):
     """bytes of the values of an array (layout independent), to see whether a call modified its input"""
     a = np.asarray(a)
     return np.ascontiguousarray(a).tobytes() + str(a.dtype).encode() + str(a.shape).encode()
+
+
+# ----------------------------------------------------------------------------- frozen signatures (call forms)
+REQ = object()          # a required parameter
+_PROX_KW = ["non_negative", "l1_reg", "l2_reg", "l2_square_reg", "unimodality", "normalize", "simplex", "normalized_sparsity",
+            "soft_sparsity", "smoothness", "monotonicity", "hard_sparsity"]
+# names, order and defaults of the public entry points as published in the pinned tree -- deliberately NOT read from the
+# live signature: a parameter inserted in the middle, reordered or renamed must show up as a changed result / TypeError
+SIG = {
+    "soft_thresholding": [("tensor", REQ), ("threshold", REQ)],
+    "l2_prox": [("tensor", REQ), ("regularizer", REQ)],
+    "l2_square_prox": [("tensor", REQ), ("regularizer", REQ)],
+    "smoothness_prox": [("tensor", REQ), ("regularizer", REQ)],
+    "simplex_prox": [("tensor", REQ), ("parameter", REQ)],
+    "soft_sparsity_prox": [("tensor", REQ), ("threshold", REQ)],
+    "monotonicity_prox": [("tensor", REQ), ("decreasing", False)],
+    "unimodality_prox": [("tensor", REQ)],
+    "hard_thresholding": [("tensor", REQ), ("number_of_non_zero", REQ)],
+    "normalized_sparsity_prox": [("tensor", REQ), ("threshold", REQ)],
+    "svd_thresholding": [("matrix", REQ), ("threshold", REQ)],
+    "procrustes": [("matrix", REQ)],
+    "proximal_operator": [("tensor", REQ)] + [(k, None) for k in _PROX_KW] + [("n_const", 1), ("order", 0)],
+    "hals_nnls": [("UtM", REQ), ("UtU", REQ), ("V", None), ("n_iter_max", 500), ("tol", 1e-8), ("sparsity_coefficient", None),
+                  ("ridge_coefficient", None), ("nonzero_rows", False), ("exact", False), ("epsilon", 0.0), ("callback", None)],
+    "fista": [("UtM", REQ), ("UtU", REQ), ("x", None), ("n_iter_max", 100), ("non_negative", True), ("sparsity_coef", 0),
+              ("ridge_coef", 0), ("lr", None), ("tol", 1e-8), ("epsilon", 1e-8)],
+    "active_set_nnls": [("Utm", REQ), ("UtU", REQ), ("x", None), ("n_iter_max", 100), ("tol", 10e-8)],
+    "admm": [("UtM", REQ), ("UtU", REQ), ("x", REQ), ("dual_var", REQ), ("n_iter_max", 100), ("n_const", None), ("order", None)]
+            + [(k, None) for k in _PROX_KW] + [("tol", 1e-4)],
+}
+FORMS = ("pos", "kw")
+
+
+def invoke(func, name, values, form):
+    """call `func` (published as `name`) with the given {parameter: value}: form "kw" = every argument by its published
+    keyword, form "pos" = every argument positionally in the published order (skipped ones filled with their published
+    defaults)."""
+    sig = SIG[name]
+    unknown = set(values) - {k for k, _ in sig}
+    if unknown:
+        raise KeyError("harness: %s has no published parameter %s" % (name, sorted(unknown)))
+    if form == "kw":
+        return func(**values)
+    last = max(i for i, (k, _) in enumerate(sig) if k in values)
+    args = []
+    for k, d in sig[: last + 1]:
+        if k in values:
+            args.append(values[k])
+        elif d is REQ:
+            raise KeyError("harness: required parameter %s of %s missing" % (k, name))
+        else:
+            args.append(d)
+    return func(*args)
+
+
+def tweak_zeros(a, vals):
+    """the same values with every zero entry written as -0.0 ("negzero") or as the subnormal +/-5e-324 ("subnormal")"""
+    a = np.array(a, dtype=np.float64, copy=True)
+    if vals == "plain":
+        return a
+    z = a == 0
+    if vals == "negzero":
+        a[z] = -0.0
+    elif vals == "subnormal":
+        flat = a.reshape(-1)
+        idx = np.flatnonzero(z.reshape(-1))
+        flat[idx] = np.where(idx % 2 == 0, 5e-324, -5e-324)
+    else:
+        raise ValueError(vals)
+    return a
